@@ -27,7 +27,16 @@ git -C $WT reset -q
 export PYTHONHASHSEED=0
 demo_with=$(cd $WT && PYTHONPATH=$WT/src /venv/bin/python $OUT/demo.py >/dev/null 2>&1; echo $?)
 demo_without=$(cd /tmp && /venv/bin/python $OUT/demo.py >/dev/null 2>&1; echo $?)
-suite=$(cd $WT && rm -rf .hypothesis && PYTHONPATH=$WT/src /venv/bin/python -m pytest -q -p no:cacheprovider -n 8 2>&1 | tail -1)
+# tests/test_parsing.py::test_each_unit_roundtrips is randomised and fails about one run in three on
+# the clean tree as well (DESIGN 9.2): a run whose only extra failure is that test is repeated
+for attempt in 1 2 3 4; do
+  suite_out=$(cd $WT && rm -rf .hypothesis && PYTHONPATH=$WT/src /venv/bin/python -m pytest -q -p no:cacheprovider -n 8 2>&1 | grep -E "^FAILED|passed|failed")
+  suite=$(echo "$suite_out" | tail -1)
+  extra=$(echo "$suite_out" | grep "^FAILED" | grep -v "tests/test_cli.py\|api_roundtrip" | sed 's/ - .*//' | tr '\n' ' ')
+  [ -z "$extra" ] && break
+  [ "$extra" != "FAILED tests/test_parsing.py::test_each_unit_roundtrips " ] && break
+done
+[ -n "$extra" ] && suite="$suite; beyond the 9 baseline failures: $extra"
 results=""
 for P in $PROPS; do
   (cd /verif && VF_EVIDENCE_DIR=$OUT/evidence VF_REPLAY_DIR=$OUT/replays PYTHONPATH=$WT/src:/verif/.deps timeout 900 /venv/bin/python -m vf $P --tier quick > $OUT/check_$P.log 2>&1; echo $? > $OUT/.rc_$P)
